@@ -20,7 +20,7 @@ inline long long pw(int level)  // weight of the ordinal chosen at `level` (1-ba
   return p;
 }
 
-template <typename P, bool OFFSET>
+template <typename P, int OFFSET>
 struct Explorer
 {
   Runner<P, OFFSET> R;
@@ -50,7 +50,7 @@ struct Explorer
 
   static std::string pname()
   {
-    return std::string(P::name()) + (OFFSET ? "@off" : "");
+    return std::string(P::name()) + (OFFSET == 1 ? "@off" : OFFSET == 2 ? "@arr" : "");
   }
 
   bool exec_case(long long idx, const Model &before, bool count)
@@ -58,9 +58,8 @@ struct Explorer
     const Op &last = hist.back();
     std::string cls = op_class(before, last);
     std::string replay = hist_text(pname(), hist);
-    // When the wrapper's alignment is statically too small every access in the {char, Optional}
-    // holder is misaligned: one class for all those sanitizer aborts instead of one per operation.
-    const bool under = OFFSET && alignof(typename Exec<P, OFFSET>::Opt) < alignof(typename P::T);
+    // When the wrapper's alignment is statically too small every payload access is misaligned: one class for all those sanitizer aborts instead of one per operation.
+    const bool under = alignof(typename Exec<P, OFFSET>::Opt) < alignof(typename P::T);
     vr::begin_case(idx, R.tag() + "|" + (under ? std::string("payload accessed in under-aligned storage") : cls), replay);
     Result r = R.run(hist, false);
     if (count) {
@@ -145,12 +144,12 @@ struct Explorer
   // explores everything below it.  Prefixes that failed or crashed have no subtree.
   static void explore(int depth, int ls)
   {
-    // Declared pruning: if the wrapper is statically under-aligned, every payload access inside
-    // {char, Optional} is misaligned and aborts; the static check already reports the defect, so
+    // Declared pruning: if the wrapper is statically under-aligned, every payload access at the
+    // least aligned address the holder's alignof permits (see Exec::mem) is misaligned and aborts; the static check already reports the defect, so
     // this configuration is only confirmed on all histories of depth <= 2 (each abort costs a
     // fork).  With a suitably aligned Optional the full depth is explored like everywhere else.
-    if (OFFSET && alignof(typename Exec<P, OFFSET>::Opt) < alignof(typename P::T)) {
-      vr::note(pname() + ": alignof(Optional<T>) < alignof(T), exploring the {char, Optional} holder to depth 2 only (declared)");
+    if (alignof(typename Exec<P, OFFSET>::Opt) < alignof(typename P::T)) {
+      vr::note(pname() + ": alignof(Optional<T>) < alignof(T), exploring the struct/array holder to depth 2 only (declared)");
       depth = 2;
     }
     if (ls >= depth)
